@@ -18,7 +18,8 @@ EXPLANATION = (
     "exactly the types Grain.rateexpr dispatches on; R3 the variant reached by composing the class's code table with its dispatch chain is "
     "algebraically equivalent (canonical form over positive reals) to the reference law of that database code, with beta/gamma = 0 where the "
     "code omits the factor; R4 rateexpr / rate_* are not memoised (their result depends on coefficients that __hash__/__eq__ ignore); "
-    "R5 the expression of reaction i is assigned to k[i] of the same enumerate position over the unfiltered reaction list (shared with C06.R1).")
+    "R5 the expression of reaction i is assigned to k[i] of the same enumerate position over the unfiltered reaction list (shared with C06.R1); "
+    "R8 the list of rate statements has one entry per reaction: no filter / slice on its spine between `reactions` and the positional override rateeqns[idx].")
 ASSUMPTIONS = [
     "reference laws are the published formulae transcribed in DESIGN.md Appendix A (KIDA help, McElroy+2013, Walsh+2015, UCLCHEM rates.f90)",
     "floating-point evaluation at extreme magnitudes and repr(float) of inf/nan are not decided",
@@ -59,6 +60,9 @@ REF = {
 }
 # which first reactants get the self-shielded photo law (full species names)
 SHIELDED = {("LEEDSReaction", 4): ["H2", "CO", "N2"], ("LEEDSReaction", 12): ["GH2", "GCO", "GN2"], ("UCLCHEMReaction", "PHOTON"): ["CO"]}
+# ... and the column density each of them is shielded by, for arms written per species (name -> column table)
+SHIELD_COLUMN = {("LEEDSReaction", 4): {"H2": "h2col", "CO": "cocol", "N2": "n2col"}, ("LEEDSReaction", 12): {"GH2": "h2col", "GCO": "cocol", "GN2": "n2col"},
+                 ("UCLCHEMReaction", "PHOTON"): {"CO": "cocol"}}
 GAS_CLASSES = ["Reaction", "KIDAReaction", "UMISTReaction", "LEEDSReaction", "UCLCHEMReaction"]
 COEFF = {("attr", SELF, "alpha"): "alpha", ("attr", SELF, "beta"): "beta", ("attr", SELF, "gamma"): "gamma"}
 
@@ -177,11 +181,39 @@ def arms_for(rm, cls, variants, dvar, value):
     return out
 
 
+def name_selection(cond):
+    """A condition that selects species by (some view of) their name -> (the tested expression, sorted literal names | None, True when the
+    condition holds FOR the listed names).  Understood: `x in [..]` / `x not in (..)`, `x == "CO"` / `x != "CO"` (a one-name list), and an
+    `or` of such tests of the same expression.  None for anything else."""
+    if cond[0] == "cmp" and len(cond[1]) == 1 and len(cond[2]) == 2:
+        op, (lhs, rhs) = cond[1][0], cond[2]
+        if "name" not in show(lhs) and "name" in show(rhs) and op in ("Eq", "NotEq"):
+            lhs, rhs = rhs, lhs
+        if "name" not in show(lhs):
+            return None
+        if op in ("In", "NotIn"):
+            lit = sorted(x[1] for x in rhs[1]) if rhs[0] in ("list", "tuple", "set") and all(x[0] == "const" and isinstance(x[1], str) for x in rhs[1]) else None
+            return lhs, lit, op == "In"
+        if op in ("Eq", "NotEq") and rhs[0] == "const" and isinstance(rhs[1], str):
+            return lhs, [rhs[1]], op == "Eq"
+        return None
+    if cond[0] == "unop" and cond[1] == "Not":
+        inner = name_selection(cond[2])
+        return None if inner is None else (inner[0], inner[1], not inner[2])
+    if cond[0] == "bool":
+        # `x == "A" or x == "B"` selects [A, B];  `x != "A" and x != "B"` (not .. and not ..) is its negation
+        parts = [name_selection(p) for p in cond[2]]
+        want = cond[1] == "Or"
+        if all(p is not None and p[2] == want and p[1] is not None and p[0] == parts[0][0] for p in parts):
+            return parts[0][0], sorted({n for p in parts for n in p[1]}), want
+    return None
+
+
 def _about_law(cond) -> bool:
     """residual path conditions that select a sub-law (coefficient is zero / who is self-shielded) rather than the dispatch arm"""
     if coeff_assumption(cond, True) is not None:
         return True
-    return cond[0] == "cmp" and cond[1][0] in ("In", "NotIn") and "name" in show(cond)
+    return name_selection(cond) is not None
 
 
 def variant_text(v):
@@ -218,6 +250,7 @@ def check(ctx):
     _r1(ctx, rm, pkg, allv)
     _r2_r3(ctx, rm, pkg, allv)
     _r4(ctx, pkg)
+    _r8(ctx, pkg)
     # the law of reaction i is what is assigned to k[i] (shared with C06.R1: statement / index / rate expression of the same reaction)
     from .c06 import _r1 as assignment_rule
     ctx.absorb(assignment_rule, "R5")
@@ -251,6 +284,11 @@ def _r1(ctx, rm, pkg, allv):
                 continue
             n += 1
             key = f"{cls}.rateexpr:{v.text}"
+            decs = [ast.unparse(d) for d in rm.flow(cls, "rateexpr")[1].decorator_list]
+            if not v.beautified and decs:
+                # (a decorator may be what cleans the returned string: what it does with the result is not read here)
+                ctx.unrec("R1", key, (v.file, v.line), f"rateexpr is wrapped by the decorator(s) {decs}: whether the returned string is cleaned by _beautify is not visible")
+                continue
             ctx.check(v.beautified, "R1", key, (v.file, v.line),
                       "a signed coefficient directly follows a literal sign; the string is cleaned by _beautify before it is returned" if v.beautified else
                       f"coefficient placed directly after a literal sign ({risky[0][1]!r}) and the string is returned without _beautify: "
@@ -356,44 +394,57 @@ def _r2_r3(ctx, rm, pkg, allv):
                 continue
             ctx.ok("R2", key, where, "code reaches a rate template")
             # R3: compare each variant with the reference
+            selections = []          # per variant that tests the reactant's name: (shielded?, names selected | None, names excluded, tested views, variant)
+            sel_open = []
             for v, extra in arms:
                 txt, names = variant_text(v)
                 zero = {}
                 for c, val in v.assume.items():
                     if c in COEFF:
                         zero[COEFF[c]] = not val
-                branch = "plain"
-                unknown = []
-                for cond, pol in extra:
+                unknown, unknown_c = [], []
+                pos, neg, views = [], set(), []
+                # (tests decided while the optional parts of the text were enumerated are conditions of the variant like those of its path)
+                for cond, pol in list(extra) + [(c, val) for c, val in v.assume.items() if c not in COEFF]:
                     ca = coeff_assumption(cond, pol)
+                    ns = None if ca else name_selection(cond)
                     if ca:
                         zero[ca[0]] = ca[1]
-                    elif cond[0] == "cmp" and cond[1][0] in ("In", "NotIn") and "name" in show(cond):
-                        inn = (cond[1][0] == "In") == pol
-                        branch = "shielded" if inn else "plain"
-                        # who is shielded is part of the law: exactly the listed species, selected by their full name
-                        # (Species.name carries the charge and surface prefix; basename/element views do not)
-                        lhs, rhs = cond[2]
-                        want = SHIELDED.get((cls, code))
-                        skey = f"{key}:shielded-species"
-                        got = None
-                        if rhs[0] in ("list", "tuple", "set") and all(x[0] == "const" for x in rhs[1]):
-                            got = sorted(x[1] for x in rhs[1])
-                        if want is None or got is None:
-                            ctx.unrec("R3", skey, (v.file, v.line), f"shielding selection {show(cond)[:100]} has no reference list / is not a literal list")
-                        elif not (lhs[0] == "attr" and lhs[2] == "name"):
-                            ctx.bad("R3", skey, (v.file, v.line), "self-shielding is selected by something other than the reactant's full name, so species that merely share a base name (ions, surface forms) get a different law",
-                                    expected=f"<first reactant>.name in {want}", found=show(cond)[:120])
+                    elif ns is not None:
+                        # who is shielded is part of the law: the condition holds for / excludes a literal list of names
+                        lhs, lit, positive = ns
+                        views.append(lhs)
+                        if lit is None:
+                            sel_open.append(show(cond)[:100])
+                        elif positive == pol:
+                            pos.append(set(lit))
                         else:
-                            ctx.check(got == sorted(want), "R3", skey, (v.file, v.line), "self-shielding applies to exactly the species of the database's law",
-                                      expected=str(sorted(want)), found=str(got))
+                            neg |= set(lit)
                     else:
                         unknown.append(show(cond)[:80])
-                vkey = f"{key}:{'/'.join(k + ('=0' if z else '!=0') for k, z in sorted(zero.items())) or 'all'}:{branch}"
-                if unknown or any(n is None for n in names.values()):
-                    ctx.unrec("R3", vkey, (v.file, v.line), f"variant has unrecognised conditions/holes: {unknown} {[h for h, n in names.items() if n is None]}")
+                        unknown_c.append((cond, pol))
+                branch = "shielded" if pos else "plain"
+                chosen = (set.intersection(*pos) - neg) if pos else None
+                if chosen is not None and not chosen and not sel_open:
+                    continue        # the name is required to be in a list and excluded from all of it: not a case that exists
+                if views:
+                    selections.append((branch == "shielded", chosen, neg, views, v))
+                vkey = f"{key}:{'/'.join(k + ('=0' if z else '!=0') for k, z in sorted(zero.items())) or 'all'}:{branch}" + \
+                    (f":{'+'.join(sorted(chosen))}" if chosen is not None and len(selections) > 1 and sum(1 for s_ in selections if s_[0]) > 1 else "")
+                if unknown_c and all(_value_cond(c) for c, _p in unknown_c) and v.raw is not None:
+                    # the FORM of the law depends on the value of a coefficient (a special case for beta = 0.5, for integer beta ..): decided by
+                    # writing the expression out for probe values of that coefficient, each compared with the reference at that value
+                    _probe_values(ctx, vkey, v, unknown_c, zero, ref[branch] if isinstance(ref, dict) else ref)
+                    continue
+                if unknown or any(n is None for n in names.values()) or v.seqs:
+                    ctx.unrec("R3", vkey, (v.file, v.line), f"variant has unrecognised conditions/holes: {unknown} {[h for h, n in names.items() if n is None]}"
+                              + (f" / joined sequence(s) {sorted(v.seqs)}" if v.seqs else ""))
                     continue
                 reftxt = ref[branch] if isinstance(ref, dict) else ref
+                # a variant that holds for ONE named species may spell that species' column density out (a table name -> column)
+                cols = SHIELD_COLUMN.get((cls, code), {})
+                if chosen is not None and len(chosen) == 1 and next(iter(chosen)) in cols and "R1NAMEcol" in reftxt and "R1NAMEcol" not in txt:
+                    reftxt = reftxt.replace("R1NAMEcol", cols[next(iter(chosen))])
                 env = {k: 0.0 for k, z in zero.items() if z}
                 try:
                     a = calg.canon_str(txt, env)
@@ -404,6 +455,27 @@ def _r2_r3(ctx, rm, pkg, allv):
                 ctx.check(a.equiv(b), "R3", vkey, (v.file, v.line),
                           f"{txt!r} == reference law" if a.equiv(b) else "rate template differs from the reference law of this database code",
                           expected=f"{reftxt}  [{b.show()[:160]}]", found=f"{txt}  [{a.show()[:160]}]")
+            if selections or sel_open:
+                # exactly the listed species are self-shielded, selected by their full name (Species.name carries the charge and the surface
+                # prefix; basename / alias views do not) -- decided over ALL variants of the code: one test against a list, or one arm per name
+                want = SHIELDED.get((cls, code))
+                skey = f"{key}:shielded-species"
+                swhere = (selections[0][4].file, selections[0][4].line) if selections else where
+                views = [lhs for s_ in selections for lhs in s_[3]]
+                odd = [lhs for lhs in views if not (lhs[0] == "attr" and lhs[2] in ("name", "basename", "gasname", "alias"))]
+                other = [lhs for lhs in views if lhs[0] == "attr" and lhs[2] in ("basename", "gasname", "alias")]
+                if want is None or sel_open:
+                    ctx.unrec("R3", skey, swhere, f"shielding selection {sel_open[:1] or [show(views[0])[:80]]} has no reference list / is not a literal list")
+                elif odd:
+                    ctx.unrec("R3", skey, swhere, f"cannot see which view of the reactant's name selects self-shielding: {show(odd[0])[:80]}")
+                elif other:
+                    ctx.bad("R3", skey, swhere, "self-shielding is selected by something other than the reactant's full name, so species that merely share a base name (ions, surface forms) get a different law",
+                            expected=f"<first reactant>.name in {want}", found=f"{show(other[0])[:80]} tested against {sorted(set().union(*[s_[1] or set() for s_ in selections], *[s_[2] for s_ in selections]))}")
+                else:
+                    got = sorted(set().union(*[s_[1] for s_ in selections if s_[0]], set()))
+                    leaked = sorted(set().union(*[set(want) - s_[2] for s_ in selections if not s_[0]], set()))
+                    ctx.check(got == sorted(want) and not leaked, "R3", skey, swhere, "self-shielding applies to exactly the species of the database's law",
+                              expected=str(sorted(want)), found=str(got) + (f"; the unshielded law is also reachable for {leaked}" if leaked else ""))
     ctx.floor("R2", "code table entries", total, 44)
     # sibling agreement: the types Reaction.rateexpr hands to the grain == the types Grain.rateexpr dispatches to a rate builder.  Decided
     # by EVALUATING both dispatches for every ReactionType value (whatever the spelling: list / tuple / set / class-level table /
@@ -419,8 +491,12 @@ def _r2_r3(ctx, rm, pkg, allv):
             kinds = {a.kind for a, extra in arms if not any(about_result(c) and p_ for c, p_ in extra)}
             if arms and kinds == {"delegate"}:
                 acc.add(tval)
-            elif und and "delegate" in kinds:
+            elif und:
+                # a dispatch condition that is not understood leaves this value undecided -- whatever arms stay "reachable"
                 open_ |= und
+            elif who == "Grain" and kinds - {"raise", "notimplemented"}:
+                # the grain's dispatch ends in something that is neither a rate builder nor a refusal: not understood
+                open_.add(f"Grain.rateexpr yields {sorted(kinds)} for type {tval}")
     ctx.floor("R2", "grain-dispatched types", len(gtypes), 9)
     if open_ and gtypes != rtypes:
         ctx.unrec("R2", "Reaction.rateexpr grain list == Grain.rateexpr chain", ("naunet/grains/grain.py", 0),
@@ -429,6 +505,311 @@ def _r2_r3(ctx, rm, pkg, allv):
         ctx.check(gtypes == rtypes, "R2", "Reaction.rateexpr grain list == Grain.rateexpr chain", ("naunet/grains/grain.py", 0),
                   "the types the native class hands to the grain are exactly the types the grain dispatches on",
                   expected=str(sorted(gtypes)), found=str(sorted(rtypes)))
+
+
+# ------------------------------------------------------------------ R3: laws whose form depends on a coefficient's value
+
+class _Unsupported(Exception):
+    pass
+
+
+class _Sym(str):
+    """a coefficient kept symbolic: prints as its name, is truthy, takes part in no arithmetic"""
+
+
+_CMP = {"Eq": lambda a, b: a == b, "NotEq": lambda a, b: a != b, "Lt": lambda a, b: a < b, "LtE": lambda a, b: a <= b, "Gt": lambda a, b: a > b,
+        "GtE": lambda a, b: a >= b, "Is": lambda a, b: a is b, "IsNot": lambda a, b: a is not b, "In": lambda a, b: a in b, "NotIn": lambda a, b: a not in b}
+_BIN = {"Add": lambda a, b: a + b, "Sub": lambda a, b: a - b, "Mult": lambda a, b: a * b, "Div": lambda a, b: a / b, "FloorDiv": lambda a, b: a // b,
+        "Mod": lambda a, b: a % b, "Pow": lambda a, b: a ** b}
+_PURE = {"abs": abs, "float": float, "int": int, "str": str, "len": len, "round": round, "min": min, "max": max, "bool": bool, "list": list, "tuple": tuple}
+_COEFF_ATOMS = set(COEFF)
+
+
+def _value_cond(cond) -> bool:
+    """a condition that only reads coefficients (alpha / beta / gamma) and literals through arithmetic, comparisons and number builtins"""
+    seen = False
+    for x in walk(cond):
+        if not isinstance(x, tuple) or not x or not isinstance(x[0], str):
+            continue
+        if x in _COEFF_ATOMS:
+            seen = True
+        elif x == SELF or x[0] in ("const", "cmp", "bool", "unop", "binop") or x[0] in _CMP:
+            continue
+        elif x[0] == "global" and x[1] in _PURE:
+            continue
+        elif x[0] == "call" and x[1][0] == "global" and x[1][1] in _PURE and not x[3]:
+            continue
+        elif x[0] == "meth" and x[2] == "is_integer" and not x[3] and not x[4]:
+            continue
+        else:
+            return False
+    return seen
+
+
+def _pyeval(ir, env):
+    """Value of a literal-like IR under `env` ({IR node: Python value}) -- a small evaluator over the IR itself (numbers, text, displays,
+    comprehensions over them, f-strings, join, number builtins); nothing of naunet is run.  Raises _Unsupported for anything else."""
+    if ir in env:
+        return env[ir]
+    k = ir[0]
+    try:
+        if k == "const":
+            return ir[1]
+        if k == "fstr":
+            out = []
+            for p_ in ir[1]:
+                if p_[0] == "const":
+                    out.append(p_[1])
+                    continue
+                val = _pyeval(p_[1], env)
+                spec = p_[2]
+                if isinstance(spec, tuple):
+                    spec = _pyeval(spec, env)
+                if p_[3] not in (-1, None):
+                    val = {115: str, 114: repr, 97: ascii}[p_[3]](val)
+                if isinstance(val, _Sym) and spec:
+                    raise _Unsupported("format spec on a symbolic coefficient")
+                out.append(format(val, spec or ""))
+            return "".join(out)
+        if k == "join":
+            return _pyeval(ir[1], env).join(list(_pyeval(ir[2], env)))
+        if k in ("list", "tuple"):
+            out = []
+            for e in ir[1]:
+                if e[0] == "star":
+                    out.extend(_pyeval(e[1], env))
+                else:
+                    out.append(_pyeval(e, env))
+            return out if k == "list" else tuple(out)
+        if k == "dict":
+            return {_pyeval(a, env): _pyeval(b, env) for a, b in ir[1]}
+        if k == "binop" and ir[1] in _BIN:
+            a, b = _pyeval(ir[2], env), _pyeval(ir[3], env)
+            if isinstance(a, _Sym) or isinstance(b, _Sym):
+                raise _Unsupported("arithmetic on a symbolic coefficient")
+            return _BIN[ir[1]](a, b)
+        if k == "unop":
+            a = _pyeval(ir[2], env)
+            if ir[1] == "Not":
+                return not a
+            if isinstance(a, _Sym):
+                raise _Unsupported("arithmetic on a symbolic coefficient")
+            return -a if ir[1] == "USub" else +a
+        if k == "cmp":
+            vals = [_pyeval(x, env) for x in ir[2]]
+            if any(isinstance(x, _Sym) for x in vals):
+                raise _Unsupported("comparison of a symbolic coefficient")
+            return all(_CMP[o](a, b) for o, a, b in zip(ir[1], vals, vals[1:]))
+        if k == "bool":
+            val = None
+            for x in ir[2]:
+                val = _pyeval(x, env)
+                if bool(val) != (ir[1] == "And"):
+                    return val
+            return val
+        if k in ("ifexp", "phi") and len(ir) == 4:
+            return _pyeval(ir[2] if _pyeval(ir[1], env) else ir[3], env)
+        if k == "call" and ir[1][0] == "global" and ir[1][1] in _PURE and not ir[3]:
+            args = [_pyeval(a, env) for a in ir[2]]
+            if any(isinstance(a, _Sym) for a in args) and ir[1][1] != "str":
+                raise _Unsupported("number builtin on a symbolic coefficient")
+            return _PURE[ir[1][1]](*args)
+        if k == "call" and ir[1] == ("global", "filter") and len(ir[2]) == 2 and ir[2][0] == ("const", None) and not ir[3]:
+            return [x for x in _pyeval(ir[2][1], env) if x]
+        if k == "meth" and ir[2] == "is_integer" and not ir[3]:
+            return float(_pyeval(ir[1], env)).is_integer()
+        if k == "meth" and ir[2] == "get" and len(ir[3]) in (1, 2) and not ir[4]:
+            d = _pyeval(ir[1], env)
+            if isinstance(d, dict):
+                return d.get(_pyeval(ir[3][0], env), _pyeval(ir[3][1], env) if len(ir[3]) == 2 else None)
+        if k == "sub":
+            base = _pyeval(ir[1], env)
+            if ir[2][0] == "slice":
+                lo, hi, st = (_pyeval(x, env) for x in ir[2][1:4])
+                return base[lo:hi:st]
+            return base[_pyeval(ir[2], env)]
+        if k == "comp" and ir[1] in ("list", "gen") and len(ir[3]) == 1 and ir[3][0][0] is not None:
+            tg, it, ifs = ir[3][0]
+            out = []
+            for item in _pyeval(it, env):
+                e2 = dict(env)
+                if tg[0] == "bv":
+                    e2[tg] = item
+                elif tg[0] == "tuple" and all(t is not None and t[0] == "bv" for t in tg[1]) and len(tg[1]) == len(item):
+                    e2.update(zip(tg[1], item))
+                else:
+                    raise _Unsupported("comprehension target")
+                if all(_pyeval(c, e2) for c in ifs):
+                    out.append(_pyeval(ir[2], e2))
+            return out
+    except _Unsupported:
+        raise
+    except Exception as ex:         # (a TypeError / KeyError / ZeroDivisionError of the little evaluation is "cannot evaluate", never a verdict)
+        raise _Unsupported(f"{type(ex).__name__}: {ex}")
+    raise _Unsupported(show(ir)[:60])
+
+
+_PROBES = (-3.0, -2.0, -1.5, -1.0, -0.5, 0.5, 1.0, 1.5, 2.0, 3.0, 4.0, 0.37, -2.7)
+
+
+def _probe_values(ctx, vkey, v, vconds, zero, reftxt):
+    """R3 for a variant whose conditions compare a coefficient with numbers (`abs(b) == 0.5`, `b > 0`, `float(b).is_integer() and b <= 3`): for
+    every probe value of that coefficient that satisfies the variant's conditions, the expression the code writes (evaluated from the
+    variant's IR with that number in place, the other coefficients kept symbolic) must be the reference law at that value.  A mismatch is a
+    concrete counterexample; no probe satisfying the conditions, or an expression that cannot be written out, is UNRECOGNISED."""
+    where = (v.file, v.line)
+    names = sorted({COEFF[x] for c, _p in vconds for x in walk(c) if isinstance(x, tuple) and x in _COEFF_ATOMS})
+    if len(names) != 1:
+        ctx.unrec("R3", vkey, where, f"the form of the law depends on the values of several coefficients at once ({names}): not enumerated")
+        return
+    name = names[0]
+    atom = next(k_ for k_, n_ in COEFF.items() if n_ == name)
+    # the literals the conditions mention, their neighbours and negatives join the probes
+    lits = {float(x[1]) for c, _p in vconds for x in walk(c) if isinstance(x, tuple) and len(x) == 2 and x[0] == "const" and type(x[1]) in (int, float) and abs(x[1]) < 1e6}
+    probes = sorted(set(_PROBES) | {s_ * (l_ + d_) for l_ in lits for d_ in (0.0, 1.0, -1.0, 0.5) for s_ in (1.0, -1.0)} - {0.0})
+    if zero.get(name) is True:
+        probes = [0.0]
+    elif name not in zero:
+        probes = [0.0] + probes
+    tried, bad_eval = [], None
+    for p_ in probes:
+        env = {atom: p_}
+        for k_, n_ in COEFF.items():
+            if n_ != name:
+                env[k_] = 0.0 if zero.get(n_) else _Sym(n_)
+        try:
+            if not all(bool(_pyeval(c, env)) == pol for c, pol in vconds):
+                continue
+            text = _pyeval(v.raw, env)
+        except _Unsupported as ex:
+            bad_eval = str(ex)
+            break
+        if not isinstance(text, str):
+            bad_eval = f"the value is not text: {text!r}"[:80]
+            break
+        tried.append(p_)
+        envn = {name: p_, **{k_: 0.0 for k_, z in zero.items() if z and k_ != name}}
+        try:
+            a = calg.canon_str(text, envn)
+            b = calg.canon_str(reftxt, envn)
+        except calg.CParseError as ex:
+            ctx.bad("R3", vkey, where, f"for {name} = {p_} the generated rate `{text}` is not a C expression: {ex}", found=text)
+            return
+        if not a.equiv(b):
+            ctx.bad("R3", vkey, where, f"for {name} = {p_} the generated rate differs from the reference law of this database code (the form of the expression depends on the "
+                    f"value of {name}: {'; '.join(('' if pol else 'not ') + show(c)[:50] for c, pol in vconds)[:160]})",
+                    expected=f"{reftxt} at {name} = {p_}  [{b.show()[:120]}]", found=f"{text}  [{a.show()[:120]}]")
+            return
+    if bad_eval is not None:
+        ctx.unrec("R3", vkey, where, f"the form of the law depends on the value of {name} and the expression cannot be written out for a probe value: {bad_eval}")
+    elif not tried:
+        ctx.unrec("R3", vkey, where, f"the form of the law depends on the value of {name}; no probe value satisfies {[show(c)[:50] for c, _p in vconds]}")
+    else:
+        ctx.ok("R3", vkey, where, f"value-dependent form: equals the reference law for {name} in {tried[:8]}{' ..' if len(tried) > 8 else ''}")
+
+
+# ------------------------------------------------------------------ R8  (positional statement lists)
+
+TL = "naunet/templateloader.py"
+_LEN_KEEPING = ("list", "tuple", "iter", "tqdm", "enumerate", "zip", "map", "reversed", "sorted")
+
+
+def _spine(v, bases, depth=0):
+    """The SPINE of a list-valued expression: the chain of comprehensions / zip / enumerate / map / copies that leads from the base
+    sequence(s) to the list, as opposed to the expressions that build one ELEMENT.  -> (evidence, open): `evidence` the constructs on the
+    spine that can change the NUMBER of entries (a comprehension filter, filter(..), a slice), `open` what is not understood."""
+    ev, op = [], []
+    if depth > 12:
+        return ev, ["nesting too deep"]
+    v = simp(v)
+    if bases(v):
+        return ev, op
+    k = v[0]
+    if k in ("phi", "ifexp") and len(v) == 4:
+        for arm in (v[2], v[3]):
+            e_, o_ = _spine(arm, bases, depth + 1)
+            ev += e_
+            op += o_
+    elif k == "copy":
+        return _spine(v[1], bases, depth + 1)
+    elif k == "comp" and v[1] in ("list", "gen") and len(v[3]) == 1:
+        tg, it, ifs = v[3][0]
+        ev += [f"comprehension filter `if {show(c)[:60]}`" for c in ifs]
+        e_, o_ = _spine(it, bases, depth + 1)
+        ev += e_
+        op += o_
+    elif k == "comp":
+        op.append(f"comprehension with {len(v[3])} loops: {show(v)[:60]}")
+    elif k == "call" and v[1][0] == "global" and v[1][1] in _LEN_KEEPING and v[2]:
+        seqs = v[2][1:] if v[1][1] == "map" else v[2][:1] if v[1][1] in ("enumerate", "sorted", "reversed", "list", "tuple", "iter", "tqdm") else v[2]
+        for a in seqs:
+            e_, o_ = _spine(a, bases, depth + 1)
+            ev += e_
+            op += o_
+    elif k == "call" and v[1] in (("global", "filter"), ("global", "compress"), ("attr", ("global", "itertools"), "compress"), ("global", "takewhile"), ("global", "dropwhile")):
+        ev.append(f"{show(v[1])}(..): {show(v)[:60]}")
+    elif k == "sub" and v[2][0] == "slice":
+        ev.append(f"slice {show(v)[:60]}")
+        e_, o_ = _spine(v[1], bases, depth + 1)
+        ev += e_
+        op += o_
+    else:
+        op.append(show(v)[:80])
+    return ev, op
+
+
+def _r8(ctx, pkg):
+    """The statement of reaction i sits at POSITION i of the list _assign_rates returns: _prepare_ode_content overrides `rateeqns[idx]` by
+    the reaction's position (rate_modifier), and the templates paste the list in order.  So the list has exactly one entry per reaction:
+    nothing on its spine -- from `reactions` to the returned list, and from the call to the positional store -- filters, slices or
+    compacts it (a skipped "0.0" placeholder shifts every later statement under the override of another reaction)."""
+    fn = pkg.method("TemplateLoader", "_assign_rates")
+    ctx.saw(TL, "TemplateLoader._assign_rates")
+    fl = Flow(fn, TL, resolver=lambda name: pkg.resolve("TemplateLoader", name)[1])
+    params = [a.arg for a in fn.args.args]
+    rets = [f for f in fl.facts if f.kind == "return" and f.value is not None]
+    n = 0
+    for f in rets:
+        v = simp(f.value)
+        if v[0] == "acc":
+            from ..valueflow import loop_built_seq
+            lb = loop_built_seq(fl, v[1])
+            if lb is None:
+                # not "one entry per iteration".  ONE append that stands under a condition inside its loop is a filter written as a loop
+                apps = [a_ for a_ in fl.facts if a_.kind == "append" and a_.target == v[1]]
+                if len(apps) == 1 and len(apps[0].loops) == 1 and apps[0].guards[apps[0].loops[0].gdepth:]:
+                    g_ = apps[0].guards[apps[0].loops[0].gdepth:]
+                    ctx.bad("R8", "_assign_rates:one-statement-per-reaction", (TL, apps[0].line), "a statement is appended only under a condition (" +
+                            "; ".join(("" if p_ else "not ") + show(c_)[:50] for c_, p_ in g_[:2]) + "): the list no longer has one entry per reaction, while "
+                            "_prepare_ode_content overrides `rateeqns[idx]` by the reaction's POSITION", expected="one statement per reaction", found="conditional append")
+                continue        # (a list filled by a loop this rule does not read: R5 says what it thinks of it)
+            v = lb[0].iter
+        ev, op = _spine(v, lambda x: x[0] == "param" and x[1] in params)
+        n += 1
+        key = "_assign_rates:one-statement-per-reaction"
+        if ev:
+            ctx.bad("R8", key, (TL, f.line), "the list of rate statements is filtered on its way from `reactions` to the returned list (" + "; ".join(ev[:2]) + "): it no longer has one entry "
+                    "per reaction, while _prepare_ode_content overrides `rateeqns[idx]` by the reaction's POSITION -- the rate_modifier of one reaction replaces the statement of another, "
+                    "whose coefficient is then never assigned", expected="one statement per reaction, in the order of `reactions`", found=ev[0])
+        elif not op:
+            ctx.ok("R8", key, (TL, f.line), "no filter / slice between `reactions` and the returned statement list")
+    # ... and between the call and the positional store
+    pn = pkg.method("TemplateLoader", "_prepare_ode_content")
+    ctx.saw(TL, "TemplateLoader._prepare_ode_content")
+    pf = Flow(pn, TL)
+    stores = [f for f in pf.facts if f.kind == "store" and f.loops and f.index is not None and any(isinstance(x, tuple) and x and x[0] == "idx" for x in walk(simp(f.index)))]
+    for tgt in sorted({f.target for f in stores}):
+        inits = [f for f in pf.facts if f.kind == "init" and f.target == tgt]
+        if len(inits) != 1 or not any(x[0] == "meth" and x[2] == "_assign_rates" for x in walk(simp(inits[0].value)) if isinstance(x, tuple) and len(x) == 5):
+            continue
+        ev, op = _spine(inits[0].value, lambda x: x[0] == "meth" and len(x) == 5 and x[2] == "_assign_rates")
+        n += 1
+        key = f"_prepare_ode_content:{tgt}[position]"
+        if ev:
+            ctx.bad("R8", key, (TL, inits[0].line), f"`{tgt}` is filtered (" + "; ".join(ev[:2]) + ") between _assign_rates(..) and the store `" + tgt + "[idx] = ..` that addresses a reaction's statement by "
+                    "the reaction's position: the override lands on the statement of another reaction", expected=f"{tgt} = self._assign_rates(..)", found=show(simp(inits[0].value))[:120])
+        elif not op:
+            ctx.ok("R8", key, (TL, inits[0].line), f"`{tgt}[idx]` addresses the list _assign_rates returned, entry for entry")
 
 
 # ------------------------------------------------------------------ R4
@@ -663,3 +1044,58 @@ def _kida_module_function(expo):
 
 BENIGN.append({"name": "kida-arrhenius-by-module-function", "edits": _kida_module_function("-")})
 MUTANTS.append({"name": "kida-module-function-sign", "edits": _kida_module_function(""), "rules": ["R3"]})
+
+
+# ---- spellings accepted since the round-6 benign sets / rules added for the round-6 seeds ----
+def _leeds_column_table(view, cocol="cocol"):
+    """who is self-shielded (and by which column density) looked up in a class-level table keyed by the reactant's name"""
+    return [{"file": L, "old": _LEEDS4_OLD, "new": '            rate = f"G0 * {a} * exp(-{c}*Av)"\n            coldens = self._shield_columns.get(re1.' + view + ')\n            if coldens is not None:\n'
+             '                shield = f"GetShieldingFactor(IDX_{re1.alias}, h2col, {coldens}, Tgas, 0)"\n                rate = f"{rate} * {shield}"\n'},
+            {"file": L, "old": _LEEDS_DEF, "new": '    _shield_columns = {"H2": "h2col", "CO": "' + cocol + '", "N2": "n2col"}\n\n' + _LEEDS_DEF}]
+
+
+BENIGN.append({"name": "leeds-shield-column-table-by-name", "edits": _leeds_column_table("name")})
+MUTANTS += [{"name": "leeds-shield-column-table-by-basename", "edits": _leeds_column_table("basename"), "rules": ["R3"]},
+            {"name": "leeds-shield-column-table-wrong-column", "edits": _leeds_column_table("name", "h2col"), "rules": ["R3"]}]
+BENIGN.append({"name": "uclchem-shield-by-equality", "file": UC, "old": 'if re1.name in ["CO"]:', "new": 'if re1.name == "CO":'})
+MUTANTS.append({"name": "uclchem-shield-by-equality-other-species", "file": UC, "old": 'if re1.name in ["CO"]:', "new": 'if re1.name == "CO" or re1.name == "N2":', "rules": ["R3"]})
+
+TLF = "naunet/templateloader.py"
+_ENUM_OLD = "            for ridx, (trange, rateexpr) in enumerate(zip(tranges, rateexprs))\n        ]\n\n        return rateassign\n"
+MUTANTS += [
+    {"name": "assign-rates-skips-zero-placeholders", "file": TLF, "old": _ENUM_OLD,
+     "new": "            for ridx, (trange, rateexpr) in enumerate(zip(tranges, rateexprs))\n            if rateexpr != \"0.0\"\n        ]\n\n        return rateassign\n", "rules": ["R8"]},
+    {"name": "ode-content-compacts-rate-statements", "file": TLF, "old": "        rateeqns = self._assign_rates(rate_sym, reactions, grains)\n",
+     "new": "        rateeqns = [eq for eq in self._assign_rates(rate_sym, reactions, grains) if not eq.endswith(\"= 0.0;\")]\n", "rules": ["R8"]},
+]
+BENIGN.append({"name": "assign-rates-returns-list-of-generator", "file": TLF, "old": "        return rateassign\n\n    def _prepare_ode_content(", "new": "        return list(iter(rateassign))\n\n    def _prepare_ode_content("})
+
+# the form of the law may depend on a coefficient's VALUE only where every case is still the law (decided on probe values)
+_K_POW = 'f"pow(Tgas/300.0, {b})" if b else "",'
+BENIGN.append({"name": "kida-unit-exponent-written-without-pow", "file": K, "old": _K_POW, "new": '("(Tgas/300.0)" if b == 1 else f"pow(Tgas/300.0, {b})") if b else "",'})
+MUTANTS += [{"name": "kida-negative-exponent-dropped", "file": K, "old": _K_POW, "new": '("(Tgas/300.0)" if b == 1 else f"pow(Tgas/300.0, {b})") if b > 0 else "",', "rules": ["R3"]},
+            {"name": "kida-half-exponent-inverted", "file": K, "old": _K_POW, "new": '("1.0/sqrt(Tgas/300.0)" if abs(b) == 0.5 else f"pow(Tgas/300.0, {b})") if b else "",', "rules": ["R3"]}]
+
+# R5 (shared with C06.R1) in the spelling "statement records": a dataclass holds the pieces, a method of it writes the text
+_RA_OLD = ('        rateassign = [\n            "\\n".join(\n                [\n                    f"if ({trange}) {{",\n                    f"{rate_sym}[{ridx}] = {rateexpr};",\n'
+           '                    f"}}",\n                ]\n            )\n            if trange\n            else f"{rate_sym}[{ridx}] = {rateexpr};"\n'
+           '            for ridx, (trange, rateexpr) in enumerate(zip(tranges, rateexprs))\n        ]\n\n        return rateassign\n')
+_RA_CLS = ('@dataclass\nclass _Stmt:\n    symbol: str\n    index: int\n    window: str\n    expr: str\n\n    def code(self) -> str:\n        assign = f"{self.symbol}[{self.index}] = {self.expr};"\n'
+           '        if not self.window:\n            return assign\n        return "\\n".join([f"if ({self.window}) {{", assign, f"}}"])\n\n\n')
+
+
+def _stmt_records(index):
+    return [{"file": TLF, "old": _RA_OLD, "new": '        stmts = [_Stmt(rate_sym, ' + index + ', trange, rateexpr) for ridx, (trange, rateexpr) in enumerate(zip(tranges, rateexprs))]\n\n'
+             '        return [stm.code() for stm in stmts]\n'},
+            {"file": TLF, "old": "class TemplateLoader:\n", "new": _RA_CLS + "class TemplateLoader:\n"}]
+
+
+BENIGN.append({"name": "assign-rates-statement-records", "edits": _stmt_records("ridx")})
+MUTANTS.append({"name": "assign-rates-statement-records-shifted-index", "edits": _stmt_records("ridx + 1"), "rules": ["R5"]})
+
+MUTANTS.append({"name": "assign-rates-loop-skips-zero-placeholders", "file": TLF, "old": _RA_OLD,
+                "new": '        rateassign = []\n        for ridx, (trange, rateexpr) in enumerate(zip(tranges, rateexprs)):\n            if rateexpr == "0.0":\n                continue\n'
+                       '            assign = f"{rate_sym}[{ridx}] = {rateexpr};"\n            rateassign.append(f"if ({trange}) {{\\n{assign}\\n}}" if trange else assign)\n\n        return rateassign\n', "rules": ["R8"]})
+BENIGN.append({"name": "assign-rates-loop-one-append-per-reaction", "file": TLF, "old": _RA_OLD,
+               "new": '        rateassign = []\n        for ridx, (trange, rateexpr) in enumerate(zip(tranges, rateexprs)):\n'
+                      '            assign = f"{rate_sym}[{ridx}] = {rateexpr};"\n            rateassign.append(f"if ({trange}) {{\\n{assign}\\n}}" if trange else assign)\n\n        return rateassign\n'})
